@@ -150,12 +150,12 @@ Proof.
   destruct e; try exact M. discriminate He.
 Qed.
 
-Lemma m_cmp_and_append : forall ops r t e' r', set_inter r r' <> [] ->
-  m_cmp_and [VExpr (EBool true ops) (Some r); VTok t; VExpr e' (Some r')] =
-  Ok (VExpr (EBool true (ops ++ [e'])) (Some (set_inter r r'))).
+Lemma m_cmp_and_append : forall ops rt t e' rt' r,
+  bool_rts_e true None (ops ++ [e']) = Ok r ->
+  m_cmp_and [VExpr (EBool true ops) rt; VTok t; VExpr e' rt'] = Ok (VExpr (EBool true (ops ++ [e'])) (Some r)).
 Proof.
-  intros ops r t e' r' H. unfold PatternSyntax.m_cmp_and. cbn [List.length Nat.eqb child nth_error bind].
-  rewrite append_operand_rep. cbn [rt_of_v]. destruct (set_inter r r') eqn:E; [congruence|]. reflexivity.
+  intros ops rt t e' rt' r H. unfold PatternSyntax.m_cmp_and. cbn [List.length Nat.eqb child nth_error bind].
+  rewrite append_operand_rep. cbn [expr_of bind]. rewrite H. reflexivity.
 Qed.
 
 Lemma m_cmp_or_fresh : forall e ra e' rb,
@@ -170,13 +170,68 @@ Proof.
   destruct isand; [|discriminate He]. cbn [as_tok bind]. exact M.
 Qed.
 
-Lemma m_cmp_or_append : forall ops r e' r', r <> [] ->
-  m_cmp_or [VExpr (EBool false ops) (Some r); VTok t_OR; VExpr e' (Some r')] =
-  Ok (VExpr (EBool false (ops ++ [e'])) (Some (set_union r r'))).
+Lemma m_cmp_or_append : forall ops rt e' rt' r,
+  bool_rts_e false None (ops ++ [e']) = Ok r ->
+  m_cmp_or [VExpr (EBool false ops) rt; VTok t_OR; VExpr e' rt'] = Ok (VExpr (EBool false (ops ++ [e'])) (Some r)).
 Proof.
-  intros ops r e' r' H. unfold PatternSyntax.m_cmp_or. cbn [List.length Nat.eqb child nth_error bind as_tok].
+  intros ops rt e' rt' r H. unfold PatternSyntax.m_cmp_or. cbn [List.length Nat.eqb child nth_error bind as_tok].
   change (ustr_eqb (tx t_OR) (tx t_OR)) with true. cbn iota.
-  rewrite append_operand_rep. cbn [rt_of_v]. destruct r as [|x r0]; [congruence|]. reflexivity.
+  rewrite append_operand_rep. cbn [expr_of bind]. rewrite H. reflexivity.
+Qed.
+
+(* ---- root_types recomputed from the operands of a rebuilt node ---- *)
+
+Definition rstep (isand : bool) (a t : list ustring) : list ustring := if isand then set_inter a t else set_union a t.
+
+Lemma brts_snoc : forall isand l a r y t,
+  bool_rts_e isand (Some a) l = Ok r -> expr_rt y = Some t -> rstep isand r t <> [] ->
+  bool_rts_e isand (Some a) (l ++ [y]) = Ok (rstep isand r t).
+Proof.
+  intros isand. induction l as [|x l IH]; intros a r y t H Hy Hn.
+  - cbn in H. inversion H; subst a. cbn [List.app bool_rts_e]. rewrite Hy. fold (rstep isand r t).
+    destruct (rstep isand r t) eqn:E; [congruence|]. reflexivity.
+  - cbn [List.app bool_rts_e] in H |- *. destruct (expr_rt x) as [tx0|]; [|discriminate].
+    destruct (if isand then set_inter a tx0 else set_union a tx0) eqn:E; [discriminate|].
+    apply IH; assumption.
+Qed.
+
+Lemma brts_snoc_none : forall isand l r y t, l <> [] ->
+  bool_rts_e isand None l = Ok r -> expr_rt y = Some t -> rstep isand r t <> [] ->
+  bool_rts_e isand None (l ++ [y]) = Ok (rstep isand r t).
+Proof.
+  intros isand [|x l] r y t Hl H Hy Hn; [congruence|].
+  cbn [List.app bool_rts_e] in H |- *. destruct (expr_rt x) as [tx0|]; [|discriminate].
+  destruct tx0 as [|c tx1]; [discriminate|]. apply brts_snoc; assumption.
+Qed.
+
+Lemma brts_one : forall isand x t, expr_rt x = Some t -> t <> [] -> bool_rts_e isand None [x] = Ok t.
+Proof. intros isand x t H Hn. cbn [bool_rts_e]. rewrite H. destruct t; [congruence|]. reflexivity. Qed.
+
+(* the attribute of a node the constructor built *)
+Lemma brts_expr_rt_some : forall isand l a r, bool_rts_e isand (Some a) l = Ok r ->
+  (fix go (acc : option (list ustring)) (l : list aexpr) : option (list ustring) :=
+     match l with
+     | [] => acc
+     | x :: r =>
+         match expr_rt x with
+         | Some t => go (Some (match acc with None => t | Some a => if isand then set_inter a t else set_union a t end)) r
+         | None => None
+         end
+     end) (Some a) l = Some r.
+Proof.
+  intros isand. induction l as [|x l IH]; intros a r H.
+  - cbn in H. inversion H. reflexivity.
+  - cbn [bool_rts_e] in H. destruct (expr_rt x) as [t|]; [|discriminate].
+    destruct (if isand then set_inter a t else set_union a t) eqn:E; [discriminate|]. rewrite <- E in H |- *. apply IH. exact H.
+Qed.
+
+Lemma brts_expr_rt : forall isand l r, bool_rts_e isand None l = Ok r -> expr_rt (mk1 isand l) = Some r.
+Proof.
+  intros isand [|x [|y l]] r H.
+  - discriminate H.
+  - cbn [mk1]. cbn [bool_rts_e] in H. destruct (expr_rt x) as [t|]; [|discriminate]. destruct t; [discriminate|]. inversion H. reflexivity.
+  - cbn [mk1 expr_rt]. cbn [bool_rts_e] in H. destruct (expr_rt x) as [t|]; [|discriminate].
+    destruct t as [|c t']; [discriminate|]. apply (brts_expr_rt_some isand (y :: l) (c :: t') r H).
 Qed.
 
 Lemma m_cmp_and_one : forall v, m_cmp_and [v] = Ok v.
@@ -249,61 +304,71 @@ Combined Scheme cmp_mutind from proptest_mind, cmpand_mind, cmpor_mind.
 
 Definition P_pt (p : proptest) : Prop :=
   wf_pt p = true -> sem_pt p = true ->
-  v_pt repaired p = Ok (VExpr (sv_pt p) (Some (rt_pt p))) /\ rt_pt p <> [].
+  v_pt repaired p = Ok (VExpr (sv_pt p) (Some (rt_pt p))) /\ rt_pt p <> [] /\ expr_rt (sv_pt p) = Some (rt_pt p).
 Definition P_and (a : cmpand) : Prop :=
   wf_and a = true -> sem_and a = true ->
-  v_and repaired a = Ok (VExpr (sv_and a) (Some (rt_and a))) /\ rt_and a <> [].
+  v_and repaired a = Ok (VExpr (sv_and a) (Some (rt_and a))) /\ rt_and a <> [] /\
+  bool_rts_e true None (sv_and_ops a) = Ok (rt_and a).
 Definition P_or (o : cmpor) : Prop :=
   wf_or o = true -> sem_or o = true ->
-  v_or repaired o = Ok (VExpr (sv_or o) (Some (rt_or o))) /\ rt_or o <> [].
+  v_or repaired o = Ok (VExpr (sv_or o) (Some (rt_or o))) /\ rt_or o <> [] /\
+  bool_rts_e false None (sv_or_ops o) = Ok (rt_or o).
 
 Lemma visit_cmp : (forall p, P_pt p) /\ (forall a, P_and a) /\ (forall o, P_or o).
 Proof.
   apply cmp_mutind; unfold P_pt, P_and, P_or.
-  - intros p nt op l Hw Hs. split; [apply v_pt_equal_ok; assumption|discriminate].
-  - intros p nt op l Hw Hs. split; [apply v_pt_order_ok; assumption|discriminate].
-  - intros p nt es Hw Hs. split; [apply v_pt_set_ok; assumption|discriminate].
-  - intros o p nt s Hw Hs. split; [apply v_pt_str_ok; assumption|discriminate].
+  - intros p nt op l Hw Hs. split; [apply v_pt_equal_ok; assumption|]. split; [discriminate|reflexivity].
+  - intros p nt op l Hw Hs. split; [apply v_pt_order_ok; assumption|]. split; [discriminate|reflexivity].
+  - intros p nt es Hw Hs. split; [apply v_pt_set_ok; assumption|]. split; [discriminate|reflexivity].
+  - intros o p nt s Hw Hs. split; [apply v_pt_str_ok; assumption|]. split; [discriminate|reflexivity].
   - (* parentheses *)
-    intros e IH Hw Hs. cbn [wf_pt sem_pt] in Hw, Hs. destruct (IH Hw Hs) as [E N].
-    split; [|exact N]. cbn [v_pt]. rewrite E. reflexivity.
+    intros e IH Hw Hs. cbn [wf_pt sem_pt] in Hw, Hs. destruct (IH Hw Hs) as [E [N B]].
+    split; [cbn [v_pt]; rewrite E; reflexivity|]. split; [exact N|].
+    cbn [sv_pt expr_rt rt_pt]. apply brts_expr_rt. exact B.
   - intros nt p Hw Hs. discriminate Hs.
   - (* single propTest *)
-    intros p IH Hw Hs. cbn [wf_and sem_and] in Hw, Hs. destruct (IH Hw Hs) as [E N].
-    split; [|exact N]. cbn [v_and]. rewrite E. reflexivity.
+    intros p IH Hw Hs. cbn [wf_and sem_and] in Hw, Hs. destruct (IH Hw Hs) as [E [N R]].
+    split; [cbn [v_and]; rewrite E; reflexivity|]. split; [exact N|].
+    cbn [sv_and_ops rt_and]. apply brts_one; assumption.
   - (* l AND r *)
     intros l IHl r IHr Hw Hs. cbn [wf_and sem_and] in Hw, Hs.
     apply andb_true_iff in Hw. destruct Hw as [Hwl Hwr].
     apply andb_true_iff in Hs. destruct Hs as [Hs Hrt]. apply andb_true_iff in Hs. destruct Hs as [Hsl Hsr].
-    destruct (IHl Hwl Hsl) as [El Nl]. destruct (IHr Hwr Hsr) as [Er Nr].
-    cbn [v_and]. rewrite El, Er. unfold visit_children. cbn [seq_results bind aggregate tokv].
-    rewrite m_cmp_and_one. cbn [seq_results bind aggregate].
-    rewrite sv_and_CAnd. cbn [rt_and].
+    destruct (IHl Hwl Hsl) as [El [Nl Bl]]. destruct (IHr Hwr Hsr) as [Er [Nr Rr]].
     apply negb_true_iff in Hrt.
     assert (Hi : set_inter (rt_and l) (rt_pt r) <> []).
     { intros E. rewrite E in Hrt. discriminate. }
-    split; [|exact Hi].
+    assert (B : bool_rts_e true None (sv_and_ops l ++ [sv_pt r]) = Ok (set_inter (rt_and l) (rt_pt r))).
+    { apply (brts_snoc_none true _ _ _ _ (sv_and_ops_nonnil l) Bl Rr Hi). }
+    cbn [rt_and sv_and_ops]. split; [|split; [exact Hi|exact B]].
+    cbn [v_and]. rewrite El, Er. unfold visit_children. cbn [seq_results bind aggregate tokv].
+    rewrite m_cmp_and_one. cbn [seq_results bind aggregate].
+    rewrite sv_and_CAnd.
     destruct l as [p|l' r'].
     + (* first two operands: a fresh AndBooleanExpression *)
       unfold sv_and. cbn [sv_and_ops mk1 List.app rt_and] in *.
       apply m_cmp_and_fresh; [apply sv_pt_not_bool|exact Nl|exact Hi].
-    + (* third and later operands are appended, root_types updated *)
-      rewrite sv_and_CAnd. apply m_cmp_and_append. exact Hi.
+    + (* third and later operands: the node is rebuilt from all operands *)
+      rewrite sv_and_CAnd. apply m_cmp_and_append. exact B.
   - (* single AND chain *)
-    intros a IH Hw Hs. cbn [wf_or sem_or] in Hw, Hs. destruct (IH Hw Hs) as [E N].
-    split; [|exact N]. cbn [v_or]. rewrite E. reflexivity.
+    intros a IH Hw Hs. cbn [wf_or sem_or] in Hw, Hs. destruct (IH Hw Hs) as [E [N B]].
+    split; [cbn [v_or]; rewrite E; reflexivity|]. split; [exact N|].
+    cbn [sv_or_ops rt_or]. apply brts_one; [apply brts_expr_rt; exact B|exact N].
   - (* l OR r *)
     intros l IHl r IHr Hw Hs. cbn [wf_or sem_or] in Hw, Hs.
     apply andb_true_iff in Hw. destruct Hw as [Hwl Hwr]. apply andb_true_iff in Hs. destruct Hs as [Hsl Hsr].
-    destruct (IHl Hwl Hsl) as [El Nl]. destruct (IHr Hwr Hsr) as [Er Nr].
+    destruct (IHl Hwl Hsl) as [El [Nl Bl]]. destruct (IHr Hwr Hsr) as [Er [Nr Br]].
+    assert (Hu : set_union (rt_or l) (rt_and r) <> []) by (apply set_union_nonnil; exact Nl).
+    assert (B : bool_rts_e false None (sv_or_ops l ++ [sv_and r]) = Ok (set_union (rt_or l) (rt_and r))).
+    { apply (brts_snoc_none false _ _ _ _ (sv_or_ops_nonnil l) Bl (brts_expr_rt true _ _ Br) Hu). }
+    cbn [rt_or sv_or_ops]. fold (sv_and r). split; [|split; [exact Hu|exact B]].
     cbn [v_or]. rewrite El, Er. unfold visit_children. cbn [seq_results bind aggregate tokv].
     rewrite m_cmp_or_one. cbn [seq_results bind aggregate].
-    rewrite sv_or_COr. cbn [rt_or].
-    split; [|apply set_union_nonnil; exact Nl].
+    rewrite sv_or_COr.
     destruct l as [a|l' r'].
     + unfold sv_or at 1. cbn [sv_or_ops mk1 List.app rt_or] in *. fold (sv_and a).
       apply m_cmp_or_fresh; [apply sv_and_not_or|exact Nl].
-    + rewrite sv_or_COr. apply m_cmp_or_append. exact Nl.
+    + rewrite sv_or_COr. apply m_cmp_or_append. exact B.
 Qed.
 
 Lemma v_or_value : forall e, wf_or e = true -> sem_or e = true ->
